@@ -687,7 +687,7 @@ public:
 			return false;
 		}
 		if (len < 0
-		    && (len += length()) < 0) {
+		    && (len += c->length()) < 0) {
 			_ref.set_instance(c);
 			return false;
 		}
